@@ -93,11 +93,11 @@ def run(chk, quick, rnd):
     if quick:
         curated = [tuple(t) for t in ("1", "01", "10", "9", "a", "1a")]
     insts = [
-        ("wide", dict(TagPool={tuple(t) for t in wide}, Secrets={"s1", "", "x:y"}, MaxPairs=1 if quick else 2,
+        ("wide", dict(TagPool={tuple(t) for t in wide}, Secrets={"s1", "", "x:y"}, MaxPairs=1,
                       Forms={"none", "dict", "json", "line", "list", "jsonlist"}, Dflts={(), ("a",)}, DoEmit=True)),
-        ("pairs", dict(TagPool={("1",), ("a",), (" ", "a"), ("#", "a"), ("-",), ()}, Secrets={"s1", "", "x:y"}, MaxPairs=2,
+        ("pairs", dict(TagPool={("1",), ("a",), (" ", "a"), ("#", "a"), ("-",), ()} | (set() if quick else {("a", " "), ("0", "1"), ("A",), ("a", "#"), (" ",), ("_",)}), Secrets={"s1", "", "x:y"}, MaxPairs=2,
                        Forms={"dict", "json", "line"}, Dflts={(), ("a",), ("1",)}, DoEmit=True)),
-        ("order", dict(TagPool=set(curated), Secrets={"s1", "s2"}, MaxPairs=3 if quick else 3,
+        ("order", dict(TagPool=set(curated), Secrets={"s1", "s2"}, MaxPairs=3,
                        Forms={"dict", "json", "line"}, Dflts={(), ("1",), ("b",)}, DoEmit=True)),
     ]
     total = 0
